@@ -83,7 +83,7 @@ def write_evidence(pid, mod, tier, seed, acc, wall, n_viol, extra=None):
     level = mod.LEVEL
     cov = {
         'evaluations': acc.execs,
-        'distinct_nontrivial': len(acc.outcomes),
+        'distinct_nontrivial': len(acc.outcomes) + acc.distinct,
         'rule': mod.RULE,
         'samples': jsonable(acc.samples) or ['(none)'],
         'exhaustive': bool(getattr(mod, 'EXHAUSTIVE', True)) and not acc.caps,
@@ -215,7 +215,7 @@ def main(argv=None):
     write_evidence(pid, mod, args.tier, seed, acc, wall, len(reported),
                    extra={'known_findings_seen': sorted(seen_known)})
     print(f"[{pid} {args.tier}] configs={acc.configs} execs={acc.execs} "
-          f"states={len(acc.states)} trans={len(acc.trans)} outcomes={len(acc.outcomes)} "
+          f"states={len(acc.states)} trans={len(acc.trans)} outcomes={len(acc.outcomes) + acc.distinct} "
           f"choice_points={acc.choice_points} caps={acc.caps} counters={acc.counters} "
           f"wall={wall:.1f}s violations={len(reported)} known={len(seen_known)}")
     return rc
